@@ -85,6 +85,7 @@ type Exec struct {
 	OnCommitRV func(txid int, err error) // commit returned
 	OnOpened   func(txid int)
 	CursorStep func() // called between cursor steps / foreach items (scheduler yield)
+	Hold       func(k, v []byte) // receives the very slices bbolt handed out (they must stay valid and unchanged until the tx ends)
 }
 
 func NewExec(path string, cfg Config) *Exec {
@@ -727,6 +728,9 @@ func (e *Exec) dumpBucket(b *bolt.Bucket, out *model.Bucket) error {
 			e.CursorStep()
 		}
 		fwd = append(fwd, string(k))
+		if e.Hold != nil {
+			e.Hold(k, v)
+		}
 		if v == nil {
 			nb := b.Bucket(k)
 			if nb == nil {
